@@ -528,3 +528,10 @@ func (g *Gen) Spend(ops []refchain.OutPoint, coins []refchain.Coin, outs []refch
 
 // OutTrue is a convenience output paying v to OP_TRUE.
 func (g *Gen) OutTrue(v uint64) refchain.TxOut { return refchain.TxOut{Value: v, Script: g.scrTrue} }
+
+// PlanNode creates a structural node (no validity judgement) for a block built on parent, so that
+// further blocks can be built on top of it before/independently of any delivery.
+func (g *Gen) PlanNode(b *refchain.Block, parent *refchain.Node) *refchain.Node {
+	return &refchain.Node{Hash: b.Hash(), Parent: parent, Height: parent.Height + 1, Time: b.Time, Bits: b.Bits,
+		Version: b.Version, Block: b, Work: new(big.Int).Add(parent.Work, refchain.BlockWork(b.Bits))}
+}
